@@ -50,13 +50,29 @@ def release(ctx, report, rule, facts, config):
 
 # ------------------------------------------------------------------ C14
 
+def run_cone(ctx, facts, config):
+    """Everything that can execute while systems are being set up, run, waited for or disposed: the call cone of the
+    lifecycle methods of every carrier of systems."""
+    roots = [b for b in facts.bodies.values() if not b.is_closure and b.name in F.LIFECYCLE[F.RUN] | set(["wait", "wait_without_tl", "setup", "dispose", "run_now", "run"])
+             and (b.self_head in (A.SD, A.DISP, A.AD, A.STAGE, A.PARSEQ, A.BCS, A.MD, A.PAR, A.SEQ) or b.trait in (A.T_RUNNOW, A.T_SYSTEM, A.T_RUNWITHPOOL, A.T_BATCHCTRL))]
+    return facts.cone(roots)
+
+
 def noswallow(ctx, report, rule, facts, config):
+    """Nothing between a system and the caller of dispatch catches, replaces or hooks a panic.  Looked for in the call cone of
+    the lifecycle methods (a `catch_unwind` in an unrelated helper of the crate is nobody's business here); panic hooks are
+    process-wide and looked for everywhere."""
+    cone = run_cone(ctx, facts, config)
+    report.floor(rule, "bodies in the run cone", len(cone), 30, config=config)
     n = 0
     for b in sorted(facts.bodies.values(), key=lambda b: b.key):
         for bb, c in I.marked_calls(b, I.SWALLOW_MARKS):
+            hook = "hook" in (c.name or "")
+            if b.key not in cone and not hook:
+                continue
             n += 1
             report.ob(rule, "swallow/%s" % b.qname, False, "%s in %s: a panicking system would not reach the caller of dispatch unchanged" % (c.short(), b.qname), site=b.loc(bb), config=config)
-    report.ob(rule, "no-catch-unwind", n == 0, "no catch_unwind / resume_unwind / panic hook manipulation in the crate (%d bodies scanned)" % len(facts.bodies), config=config)
+    report.ob(rule, "no-catch-unwind", n == 0, "no catch_unwind / resume_unwind where systems run (%d bodies in the run cone), no panic hook manipulation in the crate (%d bodies scanned)" % (len(cone), len(facts.bodies)), config=config)
 
 
 DISPATCH_FIELDS = [(A.SD, "stages"), (A.STAGE, "groups"), (A.DISP, "thread_local"), (A.DISP, "inner"), (A.BCS, "dispatcher"), (A.AD_INNER, "stages")]
